@@ -404,10 +404,10 @@ ERR_DIMS = [("o", "Origin", ["EUR", "USA"]), ("d", "Destination", ["USA", "CHN"]
 POOL = ["EUR", "USA", "CHN", 2000, "steel", "nope", 2010]
 
 
-def err_array():
+def err_array(typed=False):
     from flodym import Dimension, DimensionSet, FlodymArray
 
-    ds = DimensionSet(dim_list=[Dimension(name=n, letter=l, items=list(it)) for l, n, it in ERR_DIMS])
+    ds = DimensionSet(dim_list=[Dimension(name=n, letter=l, items=list(it), dtype=((int if l == "t" else str) if typed else None)) for l, n, it in ERR_DIMS])
     v = np.arange(24.0).reshape(2, 2, 3, 2) + 1
     X = FlodymArray(dims=ds, values=v.copy())
     items = {l: tuple(it) for l, _, it in ERR_DIMS}
@@ -428,6 +428,8 @@ def err_cases(part):
         ("unknown-number", 1995), ("unknown-number", 1980), ("unknown-number", 2020), ("unknown-number", 2005), ("unknown-number", 2000.5),
         ("unknown-number-bare", 1995), ("unknown-number-in-list", 1995), ("unknown-number-in-list", 2020), ("unknown-number-by-name", 2005),
         ("unknown-number-in-subset", 1995),
+        ("typed-lookalike", "2000"), ("typed-lookalike", 2000.5), ("typed-lookalike", "1990"), ("typed-lookalike-name", "2010"), ("typed-lookalike-bare", "2010"),
+        ("typed-lookalike-list", "2010"), ("typed-lookalike-list", 2000.5), ("typed-lookalike-text-dim", 5), ("typed-lookalike-text-dim", 0),
     ]
     cases += [("ill", list(i)) for i in ill]
     return [c for i, c in enumerate(cases) if i % 4 == part]
@@ -436,7 +438,7 @@ def err_cases(part):
 def run_err_case(kind, spec, mode):
     from flodym import Dimension
 
-    X, m = err_array()
+    X, m = err_array(typed=(kind == "ill" and str(spec[0]).startswith("typed")))
     case = dict(kind="errors", ekind=kind, spec=spec, mode=mode)
 
     def fail(k, what, **kw):
@@ -503,6 +505,19 @@ def run_err_case(kind, spec, mode):
                 return "n/a", None
         elif name == "unknown-number-in-subset":
             key = {"t": Dimension(name="Years", letter="y", items=[2000, arg])}
+        # dimensions with a declared dtype: a key of another type that merely LOOKS like a label is still unknown
+        elif name == "typed-lookalike":
+            key = {"t": arg}
+        elif name == "typed-lookalike-name":
+            key = {"Time": arg}
+        elif name == "typed-lookalike-bare":
+            key = arg
+        elif name == "typed-lookalike-list":
+            key = {"t": [1990, arg]}
+            if mode == "read":
+                return "n/a", None
+        elif name == "typed-lookalike-text-dim":
+            key = {"m": arg}
     if mode == "read":
         st, got = attempt(lambda: X[key])
     else:
@@ -559,16 +574,78 @@ def run_where_case(pattern, dims, marked, prov="C"):
     X, m, items = make_target(pattern, dims, prov)
     labs = list(m.labels())
     case = dict(kind="where", pattern=pattern, dims="".join(dims), marked=marked, prov=prov, family=FAMILY)
-    for k in marked:
-        X.values[tuple(items[l].index(it) for l, it in zip(dims, labs[k]))] = -99.0
-    st, got = attempt(lambda: X.items_where(lambda v: v == -99.0))
-    if st == "raised":
-        return "fail", dict(case=case, tags=dict(mode="items_where", kind="raised"), what=f"items_where raised {got}")
-    rows = sorted(tuple(str(x) for x in r) for r in np.asarray(got).reshape(-1, len(dims)).tolist())
     want = sorted(tuple(str(x) for x in labs[k]) for k in marked)
-    if rows != want:
-        return "fail", dict(case=case, tags=dict(mode="items_where", kind="values"), what=f"items_where on dims {''.join(dims)!r} lengths {pattern}: reported {rows}, entries are at {want}")
+    for mark, cond, txt in ((-99.0, lambda v: v == -99.0, "v == -99"), (0.0, lambda v: v == 0, "v == 0"), (0.0, lambda v: v <= 0, "v <= 0")):
+        # (all other entries are positive; the marked ones hold -99 resp. exactly zero)
+        for k in marked:
+            X.values[tuple(items[l].index(it) for l, it in zip(dims, labs[k]))] = mark
+        st, got = attempt(lambda: X.items_where(cond))
+        if st == "raised":
+            return "fail", dict(case=case, tags=dict(mode="items_where", kind="raised"), what=f"items_where({txt}) raised {got}")
+        rows = sorted(tuple(str(x) for x in r) for r in np.asarray(got).reshape(-1, len(dims)).tolist())
+        if rows != want:
+            return "fail", dict(case=case, tags=dict(mode="items_where", kind="values"), what=f"items_where({txt}) on dims {''.join(dims)!r} lengths {pattern}: reported {rows}, entries are at {want}")
     return "where-agrees", None
+
+
+def run_derived_dims_case(pattern, dims, how):
+    """an array over Dimension objects that were DERIVED (pydantic model_copy with re-ordered items / deep copy) from
+    dimensions that had already been used for label lookups: every single-item read and list write by label"""
+    import copy
+
+    from flodym import DimensionSet, FlodymArray
+
+    dims = tuple(dims)
+    X0, m0, items0 = make_target(pattern, dims)
+    case = dict(kind="derived-dims", pattern=pattern, dims="".join(dims), how=how, family=FAMILY)
+    for l in dims:  # the original dimensions are used for lookups first
+        for it in items0[l]:
+            attempt(lambda: X0[{l: it}])
+            attempt(lambda: X0[it])
+    items = {l: tuple(reversed(items0[l])) if how != "deepcopy" else tuple(items0[l]) for l in dims}
+    dl = []
+    for l in dims:
+        d0 = X0.dims[l]
+        if how == "model_copy":
+            dl.append(d0.model_copy(update={"items": list(items[l])}))
+        elif how == "model_copy-deep":
+            dl.append(d0.model_copy(update={"items": list(items[l])}, deep=True))
+        else:
+            dl.append(copy.deepcopy(d0))
+    f = S.val_base(6, 0)(dims, items)
+    st, Y = attempt(lambda: FlodymArray(dims=DimensionSet(dim_list=dl), values=S.ndarray_for(dims, items, f, "C")))
+    if st == "raised":
+        return "derived-dimension-refused", None
+    m = R.build(dims, items, f)
+
+    def fail(what):
+        return "fail", dict(case=case, tags=dict(mode="derived-dims", kind="values"), what=f"array over dimensions derived by {how} (items {[items[l] for l in dims]}) from dimensions used before: {what}")
+
+    for l in dims:
+        for it in items[l]:
+            region, src = R.select(m, {l: ("item", it)})
+            st, got = attempt(lambda: observe.arr(Y[{l: it}]))
+            if st == "raised":
+                return fail(f"read {{{l!r}: {it!r}}} raised {got}")
+            d = region.diff(got)
+            if d:
+                return fail(f"read {{{l!r}: {it!r}}}: {d}")
+            keep = Y.values.copy()
+            st, info = attempt(lambda: Y.__setitem__({l: [it]}, -7.5))
+            want = m.copy()
+            for lab in region.labels():
+                want.data[src[lab]] = -7.5
+            obs = observe.arr(Y)
+            Y.values[...] = keep
+            if st == "raised":
+                return fail(f"write {{{l!r}: [{it!r}]}} raised {info}")
+            d = want.diff(obs)
+            if d:
+                return fail(f"write {{{l!r}: [{it!r}]}}: {d}")
+    st, got = attempt(lambda: Y.split(dims[0]))
+    if st == "ok" and list(got.keys()) != list(items[dims[0]]):
+        return fail(f"split({dims[0]!r}) keys {list(got.keys())}")
+    return "derived-dims-agree", None
 
 
 def run_split_case(pattern, dims, letter):
@@ -615,7 +692,18 @@ def run_where_long_case(dims, marked):
     return "where-agrees", None
 
 
+DERIVED_HOW = ("model_copy", "model_copy-deep", "deepcopy")
+
+
 def run_where(u, res):
+    if u.get("family", "std") == "std":
+        for how in DERIVED_HOW:
+            oc, f = run_derived_dims_case(u["pattern"], u["dims"], how)
+            res["evals"] += 1
+            res["nontrivial"] += 1
+            res["outcomes"][oc] = res["outcomes"].get(oc, 0) + 1
+            if f:
+                res["fails"].append(f)
     if u["pattern"] == "all2":
         for dims in ("m", "mt", "tm", "rmt", "tr"):
             n = 1
@@ -678,6 +766,8 @@ def replay(case):
         oc, f = run_where_case(case["pattern"], case["dims"], case["marked"], case.get("prov", "C"))
     elif k == "where-long":
         oc, f = run_where_long_case(case["dims"], case["marked"])
+    elif k == "derived-dims":
+        oc, f = run_derived_dims_case(case["pattern"], case["dims"], case["how"])
     else:
         oc, f = run_split_case(case["pattern"], case["dims"], case["letter"])
     return [f] if f else []
